@@ -20,3 +20,16 @@ TWINS = [
     T("safe-join-result-inline", S, "            file_path = _safe_join(base_path, file_info.filename)\n            parent_dir = os.path.dirname(file_path)", "            file_path = _safe_join(base_path, file_info.filename)\n            parent_dir = os.path.dirname(_safe_join(base_path, file_info.filename))"),
     T("tempdir-var-renamed", A, "            with tempfile.TemporaryDirectory() as temp_dir:\n                try:\n                    szf.extractall(path=temp_dir)", "            with tempfile.TemporaryDirectory() as temp_dir:\n                try:\n                    szf.extractall(temp_dir)"),
 ]
+
+# --- seeded changes kept under /verif/seeded (sub-agents saw only the property text); each must be reported by the named rule
+import os as _os
+from sa.selftest.harness import P as _P
+_SEEDS = _os.path.join(_os.path.dirname(_os.path.dirname(_os.path.dirname(_os.path.abspath(__file__)))), "seeded")
+SEEDED = [
+    ("C09-1", "C09-TMP"),
+    ("C09-2", "C09-PATH"),
+    ("C09-3", "C09-MEM"),
+    ("C09-4", "C09-TMP"),
+    ("C09-5", "C09-PATH"),
+]
+MUTANTS = list(MUTANTS) + [_P("seed-" + sid, _os.path.join(_SEEDS, sid, "patch.diff"), rule) for sid, rule in SEEDED if _os.path.exists(_os.path.join(_SEEDS, sid, "patch.diff"))]
